@@ -174,18 +174,19 @@ def render(net: Net, hier: bool, mids):
     return "\n".join(lines) + "\n"
 
 
-CASE_TMPL = """{header}From Cohdl Require Import Equiv.VhdlTS.
+CASE_TMPL = """{header}From Cohdl Require Import Equiv.VhdlTS Vhdl.DeadVars Equiv.StoreTS.
 Definition dh : design := {dh}.
 Definition df : design := {df}.
 Definition alphabet : list (list value) := {alphabet}.
 {count}Theorem case_ok : forall ins, Forall (fun i => In i alphabet) ins ->
-  traceA (vstep dh false) (power_up dh) ins = traceB (vstep df false) (power_up df) ins.
-Proof. apply (dcheck_sound dh df false alphabet 2000000); vm_cast_no_check (eq_refl true). Qed.
+  traceA (sstep dh false) (power_up_s dh) ins = traceA (sstep df false) (power_up_s df) ins.
+Proof. apply (dcheck_s_sound dh df false alphabet 1000000); vm_cast_no_check (eq_refl true). Qed.
 """
-DIAG = """Definition verdict := Eval vm_compute in (dcheck_bfs dh df false alphabet 2000000).
+DIAG = """Eval vm_compute in (conc_all_ok (auto_Ts dh) dh, conc_all_ok (auto_Ts df) df).
+Definition verdict := Eval vm_compute in (dcheck_s_bfs dh df false alphabet 1000000).
 Eval vm_compute in verdict.
 Eval vm_compute in (match verdict with
-  | VCex path => Some (traceA (vstep dh false) (power_up dh) path, traceB (vstep df false) (power_up df) path)
+  | VCex path => Some (traceA (sstep dh false) (power_up_s dh) path, traceA (sstep df false) (power_up_s df) path)
   | _ => None end).
 """
 
@@ -271,7 +272,7 @@ def run(ck: common.Check, replay=None):
         ck.hist("depth", 3 if mids else 2)
         alpha = X.default_alphabet(dh)
         path = os.path.join(ck.gen, name + ".v")
-        count = "Eval vm_compute in (dcheck dh df false alphabet 2000000).\n" if len(files) < 3 else ""
+        count = "Eval vm_compute in (dcheck_s dh df false alphabet 1000000).\n" if len(files) < 3 else ""
         with open(path, "w") as f:
             f.write(CASE_TMPL.format(header=common.COQ_HEADER, dh=R.design_to_coq(dh), df=R.design_to_coq(df), alphabet=alpha, count=count))
         files.append((name, path, hs, fs, rh["vhdl"], rf["vhdl"]))
